@@ -35,10 +35,11 @@ def cases(max_depth):
     return st.fixed_dictionaries({
         "doc": S.doc_spec(max_depth=max_depth, max_secs=3, max_props=3,
                           text_classes=["plain", "comma", "bracket", "nonascii"]),
-        "mode": st.sampled_from(["clone", "clone", "clone", "export_leaf", "template"]),
+        "mode": st.sampled_from(["clone", "clone", "clone", "export_leaf", "export_leaf", "template"]),
         "node": st.integers(0, 40),
         "children": st.booleans(), "keep_id": st.booleans(),
-        "detach": st.sampled_from([False, False, False, True]),
+        "detach": st.sampled_from([False, False, False, True, "top"]),
+        "dup_id_chain": st.sampled_from([False, True]),
         "nan": st.lists(st.tuples(st.integers(0, 20), st.sampled_from(["uncertainty", "value"])).map(list),
                         max_size=2),
         "edit_copy": st.booleans(),
@@ -236,11 +237,28 @@ def body(case):
         elif mode == "export_leaf":
             if k == "doc":
                 return False, classes + ["export:skipped"], []
-            if case.get("detach"):
+            if case.get("detach") == "top":
+                # the tree is not part of a Document: the chain ends at its top Section
+                top = node if k == "sec" else node.parent
+                while top.parent is not None and snap.kind(top.parent) == "sec":
+                    top = top.parent
+                if top.parent is not None:
+                    top.parent.remove(top)
+                origin = top
+                classes.append("export:tree_without_document")
+            elif case.get("detach"):
                 # the chain of a detached object is the object alone
                 node.parent = None
                 origin = node
                 classes.append("export:detached_" + k)
+            if case.get("dup_id_chain"):
+                # ids are not what tells the objects of a chain apart: give the start Section the id of
+                # one of its ancestors (what a keep_id clone appended below its original looks like)
+                sec0 = node if k == "sec" else node.parent
+                anc = sec0.parent if sec0 is not None else None
+                if anc is not None and snap.kind(anc) == "sec":
+                    sec0.new_id(anc.id)
+                    classes.append("export:start_shares_id_with_ancestor")
             try:
                 copy = node.export_leaf()
             except Exception as exc:
